@@ -198,6 +198,10 @@ class WSGIContainer:
         for key, value in headers:
             header_obj.add(key, value)
         assert request.connection is not None
+        if request.method == "HEAD":
+            # The headers describe the body a GET would carry, but a
+            # response to HEAD has none.
+            body = b""
         request.connection.write_headers(start_line, header_obj, chunk=body)
         request.connection.finish()
         self._log(status_code, request)
